@@ -22,10 +22,14 @@ def _dur(v):
 
 def command_of(tc, fmt):
     parts = [f'echo {tc["id"]} >> "$RUN_LOG"']
+    if tc["beh"] == "noterm":
+        parts.insert(0, "trap '' TERM")       # the shell ignores SIGTERM: only SIGKILL ends it
     if tc["dur"] > 0:
         # the late marker shows whether a command that ran into a limit was really aborted
         parts.append(f'sleep {tc["dur"]}')
         parts.append(f'echo late-{tc["id"]} >> "$RUN_LOG"')
+    if tc["out"] == "bigutf8":
+        parts.append("printf '\\303\\274%.0s' $(seq 1 3000); echo")      # 6000 bytes of u-umlaut, one line
     if tc["out"] in ("stdout", "both"):
         parts.append(f"printf 'o-{tc['id']}\\n'")
     if tc["out"] in ("stderr", "both"):
